@@ -308,6 +308,32 @@ func ruleCloneFresh(p *Prog, r *Result) {
 			switch x := v.(type) {
 			case *ssa.Alloc:
 				okFresh = true
+				fromRecv := func(y ssa.Value) bool { return len(cl.Params) > 0 && y == ssa.Value(cl.Params[0]) }
+				// whole-struct copy of the receiver: every field Update writes must be re-initialised afterwards
+				for _, ref := range *x.Referrers() {
+					st, ok := ref.(*ssa.Store)
+					if !ok || st.Addr != ssa.Value(x) || !derivesFrom(st.Val, fromRecv) {
+						continue
+					}
+					for _, fl := range sortedKeys(written) {
+						reinit := false
+						for _, r2 := range *x.Referrers() {
+							if fa, ok := r2.(*ssa.FieldAddr); ok {
+								if _, f2, _, _ := fieldOfAddr(fa); f2 == fl {
+									for _, r3 := range *fa.Referrers() {
+										if s3, ok := r3.(*ssa.Store); ok && !derivesFrom(s3.Val, fromRecv) {
+											reinit = true
+										}
+									}
+								}
+							}
+						}
+						if !reinit {
+							okFresh = false
+							why = "Clone copies the whole receiver, including field " + fl + " which Update writes (slices and maps stay shared between groups)"
+						}
+					}
+				}
 				// field initialisers copied from the receiver
 				for _, ref := range *x.Referrers() {
 					fa, ok := ref.(*ssa.FieldAddr)
